@@ -132,7 +132,7 @@ func ruleColumnAgreement(c *eng.Ctx) {
 	stdKeys := trueStringSet(std)
 	produced := map[string]bool{}
 	prefixes := map[string]bool{}
-	eng.Instrs(coll, false, func(in ssa.Instruction) {
+	eng.Instrs(coll, true, func(in ssa.Instruction) { // closures included: the name may be built in a function literal handed to a map helper
 		switch x := in.(type) {
 		case *ssa.Store:
 			if s, ok := eng.ConstString(x.Val); ok {
@@ -311,6 +311,34 @@ func ruleCollectionFilter(c *eng.Ctx) {
 			n++
 		}
 	})
+	if n == 0 {
+		// the loop lives in a filter helper: the predicate is handed on and called there
+		var calls []ssa.Value
+		eng.Instrs(fn, false, func(in ssa.Instruction) {
+			if call, ok := in.(*ssa.Call); ok {
+				calls = append(calls, call)
+			}
+		})
+		for _, cv := range calls {
+			g, call, ok := delegatedFilter(cv, func(v ssa.Value) bool {
+				fr, ok := eng.LoadOfField(v)
+				return ok && fr.Field == "Chunks"
+			})
+			if !ok {
+				continue
+			}
+			for j, a := range eng.ArgsWithRecv(call) {
+				if a != ssa.Value(fn.Params[1]) || j >= len(g.Params) {
+					continue
+				}
+				eng.Instrs(g, false, func(in ssa.Instruction) {
+					if ci, ok := in.(ssa.CallInstruction); ok && ci.Common().Value == ssa.Value(g.Params[j]) {
+						n++
+					}
+				})
+			}
+		}
+	}
 	c.Check(n == 1, R, "rag.(*ChunkCollection).Filter#predicate-once", fn.Pos(), "one predicate call site", fmt.Sprintf("the predicate is called from %d places: a predicate with state (dedupe, first-N, budget) sees every chunk more than once and selects the wrong set", n))
 	for _, f := range c.P.ModuleFuncs() {
 		if f.Signature.Recv() == nil || eng.TypeName(f.Signature.Recv().Type()) != "*rag.ChunkCollection" || f.Parent() != nil {
